@@ -79,8 +79,15 @@ fn one_case(ctx: &Ctx, case: u64, l: &mut Local) {
     let pres = match api::holder_new(&issued.sd_jwt, fmt) {
         Outcome::Ok(mut h) => match api::present(&mut h, &sel, Some(&kb)) {
             Outcome::Ok(p) => p,
-            _ => {
-                l.count("skipped.present");
+            other => {
+                // an honest holder (right key, its algorithm given or defaulted) must be able to present
+                l.violate(Violation {
+                    subcheck: "holder-cannot-present".into(),
+                    class: format!("honest key-bound presentation ({} holder, issuer {}, explicit alg {})", halg.name(), cfg.alg.name(), kb.explicit_alg),
+                    observed: other.panic_signature().unwrap_or_else(|| other.describe()),
+                    case,
+                    detail: json!({"config": cfg.describe(), "history": api::history()}),
+                });
                 return;
             }
         },
@@ -327,6 +334,17 @@ fn one_case(ctx: &Ctx, case: u64, l: &mut Local) {
                 dup.disclosures.insert(at.min(dup.disclosures.len()), parts.disclosures[k].clone());
                 must_reject(l, "replay-more", 10 + (k as u64) * 4 + at as u64, &dup, a, n, 0);
             }
+        }
+        // disclosures glued together with the separator into ONE list element (JSON): the hashed
+        // string stays the same, the disclosures become unreadable
+        if parts.disclosures.len() >= 2 {
+            let mut glued = parts.clone();
+            glued.disclosures = vec![parts.disclosures.join("~")];
+            must_reject(l, "replay-glued", 0, &glued, a, n, 0);
+            let mut glued2 = parts.clone();
+            let first_two = format!("{}~{}", parts.disclosures[0], parts.disclosures[1]);
+            glued2.disclosures = std::iter::once(first_two).chain(parts.disclosures.iter().skip(2).cloned()).collect();
+            must_reject(l, "replay-glued", 1, &glued2, a, n, 0);
         }
         // a forged (unreferenced) disclosure added
         let mut forged = parts.clone();
